@@ -23,7 +23,7 @@ func init() {
 		Assumptions: []string{"cache staleness across consecutive scans and failed-but-applied writes are not decided"}})
 	register(&propSpec{ID: "C04", Run: checkC04,
 		Explanation: "At the only IncreaseSize call the argument d satisfies d ≥ 1, TargetSize + d ≤ MaxSize and TargetSize + d ≤ max_nodes on every path (linear entailment through the inlined clamp helper and the min(max_nodes, MaxSize) selection); TargetSize/MaxSize are single terms in that function (nothing in its scope mutates the cached group); every action in the scan body is behind min_nodes ≤ len(allNodes) ≤ max_nodes; the provider itself refuses above the ASG maximum (C17.R1).",
-		RuleText:    "R1 relational bound (2 facts), R2 positive delta, R3 provider bound (shared with C17.R1), R4 bounds guard per ACT call",
+		RuleText:    "R1 relational bound (2 facts), R2 positive delta, R3 provider bound (shared with C17.R1), R4 bounds guard per ACT call, R5 typestate of the cached desired capacity the clamp reads (shared with C07.R5)",
 		Assumptions: []string{"whether the cached TargetSize equals the real desired capacity is C07.R5"}})
 }
 
@@ -834,6 +834,9 @@ func checkC04(ck *Check) {
 		ck.cond(okv, "C04.R4", key, ck.P.instrPos(ci), funcID(a.Scan), "PC ⇒ min_nodes ≤ len(allNodes) ≤ max_nodes", pc.String(), why)
 	}
 	ck.floor("C04.R4", "ACT calls in the scan body", len(acts), 3)
+	// R5 the TargetSize the clamp adds to is the real desired capacity: typestate on the provider's
+	// cached desired size (shared with C07.R5 / C19.R1)
+	ck.cacheTypestate("C04.R5")
 }
 
 // findInvoke: the term of an invoke of method on receiver term recv occurring in fn.
